@@ -5,6 +5,7 @@
 use std::sync::atomic::{AtomicU64, Ordering};
 
 pub mod methods;
+pub mod ind;
 
 static EPS_BITS: AtomicU64 = AtomicU64::new(0x3CB0_0000_0000_0000); // 2^-52
 
